@@ -343,6 +343,91 @@ theorem seeds_distinct_counterexample :
   revert this
   decide
 
+
+/-! ### extending a generator folder -/
+
+/-- every stored simulation number carries the scenario of *its own* seed -/
+def FolderGood {σ : Type} (seedAt : Nat → Nat) (scen : Nat → σ) (F : Folder σ) : Prop :=
+  ∀ i, i < F.nSaved → F.files i = some (scen (seedAt i))
+
+theorem mem_writes {fresh : Bool} {nSaved n i : Nat} :
+    i ∈ writes fresh nSaved n ↔ (if fresh then i < n else nSaved ≤ i ∧ i < n) := by
+  unfold writes
+  cases fresh
+  · simp only [Bool.false_eq_true, ↓reduceIte]
+    split
+    · simp [List.mem_range']; omega
+    · simp; omega
+  · simp
+
+theorem initRun_good {σ : Type} (seedAt : Nat → Nat) (scen : Nat → σ) (fresh : Bool) (n : Nat)
+    (F : Folder σ) (h : FolderGood seedAt scen F) : FolderGood seedAt scen (initRun seedAt scen fresh n F) := by
+  intro i hi
+  simp only [initRun] at hi ⊢
+  by_cases hw : i ∈ writes fresh F.nSaved n
+  · simp [hw]
+  · simp only [hw, ↓reduceIte]
+    apply h
+    rw [mem_writes] at hw
+    cases fresh <;> simp_all <;> split at hi <;> omega
+
+/-- seed-index property of the extension (`extendScenarios`): after ANY history of fresh runs,
+extensions and smaller runs on one generator folder, simulation number `i` holds the scenario
+generated under `emis_preseed_val[i]` -/
+theorem extension_seed_index {σ : Type} (seedAt : Nat → Nat) (scen : Nat → σ)
+    (hist : List (Bool × Nat)) (F : Folder σ) (h : FolderGood seedAt scen F) :
+    FolderGood seedAt scen (runHistory seedAt scen hist F) := by
+  induction hist generalizing F with
+  | nil => exact h
+  | cons r rest ih => exact ih _ (initRun_good seedAt scen r.1 r.2 F h)
+
+theorem extension_seed_index_from_empty {σ : Type} (seedAt : Nat → Nat) (scen : Nat → σ)
+    (hist : List (Bool × Nat)) :
+    FolderGood seedAt scen (runHistory seedAt scen hist Folder.empty) :=
+  extension_seed_index seedAt scen hist _ (fun i hi => by simp [Folder.empty] at hi)
+
+/-- a non-fresh run leaves the pickles of the pre-existing simulation numbers untouched -/
+theorem extension_preserves_existing {σ : Type} (seedAt : Nat → Nat) (scen : Nat → σ) (n : Nat)
+    (F : Folder σ) (i : Nat) (hi : i < F.nSaved) :
+    (initRun seedAt scen false n F).files i = F.files i := by
+  have : i ∉ writes false F.nSaved n := by rw [mem_writes]; simp; omega
+  simp [initRun, this]
+
+/-- the seed trace of a run: simulation `i` is generated under `seedAt i`, nothing else -/
+theorem seedTrace_index (seedAt : Nat → Nat) (fresh : Bool) (nSaved n : Nat) :
+    ∀ p ∈ seedTrace seedAt fresh nSaved n, p.2 = seedAt p.1 := by
+  intro p hp
+  obtain ⟨i, _, rfl⟩ := List.mem_map.mp hp
+  rfl
+
+/-- hence, in a folder grown by any history, simulation numbers with different seeds hold
+different scenarios as soon as different seeds give different scenarios -/
+theorem extension_distinct {σ : Type} (seedAt : Nat → Nat) (scen : Nat → σ)
+    (hinj : Function.Injective scen) (hist : List (Bool × Nat)) (i j : Nat)
+    (hi : i < (runHistory seedAt scen hist Folder.empty).nSaved)
+    (hj : j < (runHistory seedAt scen hist Folder.empty).nSaved) (hs : seedAt i ≠ seedAt j) :
+    (runHistory seedAt scen hist Folder.empty).files i
+      ≠ (runHistory seedAt scen hist Folder.empty).files j := by
+  have hg := extension_seed_index_from_empty seedAt scen hist
+  rw [hg i hi, hg j hj]
+  intro h
+  exact hs (hinj (Option.some.inj h))
+
+/-- the seed file is append-only: growing it keeps the seed of every existing simulation number -/
+theorem genSeeds_prefix (old draws : List Nat) (nSim : Nat) :
+    ∃ t, genSeeds old draws nSim = old ++ t := by
+  unfold genSeeds
+  split
+  · exact ⟨_, rfl⟩
+  · exact ⟨[], by simp⟩
+
+/-- non-vacuity: fresh run with 2, extension to 4, smaller run, extension to 5 -/
+example :
+    let F := runHistory (fun i => 10 * i + 7) id [(true, 2), (false, 4), (false, 1), (false, 5)] Folder.empty
+    F.nSaved = 5 ∧ F.files 3 = some 37 ∧ F.files 4 = some 47 ∧ F.files 5 = none
+    ∧ seedTrace (fun i => 10 * i + 7) false 2 4 = [(2, 27), (3, 37)] := by
+  decide +kernel
+
 /-! ### verdict -/
 
 /-- C16 minus the two clauses that fail today: all generation clauses, the cap clauses for the
